@@ -12,6 +12,11 @@ pub struct SrcSpec {
     pub prefix: Vec<u8>,
     /// seed of the deterministic non-zero continuation
     pub salt: u64,
+    /// the source's word methods (next_u32 / next_u64) deliver an unrelated stream of their own
+    /// instead of the next bytes of the byte stream (RngCore does not promise consistency between
+    /// the methods; the seeding contract names `fill_bytes`)
+    #[serde(default)]
+    pub words_differ: bool,
 }
 
 impl SrcSpec {
@@ -34,18 +39,25 @@ impl SrcSpec {
     pub fn bytes(&self, from: usize, n: usize) -> Vec<u8> {
         (from..from + n).map(|i| self.byte_at(i)).collect()
     }
+    /// k-th value of the separate word stream
+    pub fn word_at(&self, k: usize) -> u64 {
+        let mut z = (k as u64).wrapping_add(self.salt ^ 0x5bd1e995_9e3779b9).wrapping_mul(0xd6e8feb86659fd93);
+        z ^= z >> 32;
+        z.wrapping_mul(0xd6e8feb86659fd93) | 1
+    }
 }
 
 /// infallible counting source
 pub struct ByteSrc {
     pub spec: SrcSpec,
     pub pos: usize,
+    pub word_pos: usize,
     pub calls: Vec<(&'static str, usize)>,
 }
 
 impl ByteSrc {
     pub fn new(spec: SrcSpec) -> ByteSrc {
-        ByteSrc { spec, pos: 0, calls: Vec::new() }
+        ByteSrc { spec, pos: 0, word_pos: 0, calls: Vec::new() }
     }
     fn take(&mut self, n: usize) -> Vec<u8> {
         let v = self.spec.bytes(self.pos, n);
@@ -57,11 +69,19 @@ impl ByteSrc {
 impl RngCore for ByteSrc {
     fn next_u32(&mut self) -> u32 {
         self.calls.push(("next_u32", 4));
+        if self.spec.words_differ {
+            self.word_pos += 1;
+            return self.spec.word_at(self.word_pos - 1) as u32;
+        }
         let b = self.take(4);
         u32::from_le_bytes([b[0], b[1], b[2], b[3]])
     }
     fn next_u64(&mut self) -> u64 {
         self.calls.push(("next_u64", 8));
+        if self.spec.words_differ {
+            self.word_pos += 1;
+            return self.spec.word_at(self.word_pos - 1);
+        }
         let b = self.take(8);
         u64::from_le_bytes([b[0], b[1], b[2], b[3], b[4], b[5], b[6], b[7]])
     }
@@ -87,6 +107,7 @@ impl std::error::Error for SrcErr {}
 pub struct FailSrc {
     pub spec: SrcSpec,
     pub pos: usize,
+    pub word_pos: usize,
     pub fail_at: Option<usize>,
     pub token: u64,
     pub failed_calls: usize,
@@ -94,7 +115,7 @@ pub struct FailSrc {
 
 impl FailSrc {
     pub fn new(spec: SrcSpec, fail_at: Option<usize>, token: u64) -> FailSrc {
-        FailSrc { spec, pos: 0, fail_at, token, failed_calls: 0 }
+        FailSrc { spec, pos: 0, word_pos: 0, fail_at, token, failed_calls: 0 }
     }
     fn take(&mut self, n: usize) -> Result<Vec<u8>, SrcErr> {
         if let Some(f) = self.fail_at {
@@ -112,10 +133,18 @@ impl FailSrc {
 impl TryRngCore for FailSrc {
     type Error = SrcErr;
     fn try_next_u32(&mut self) -> Result<u32, SrcErr> {
+        if self.spec.words_differ {
+            self.word_pos += 1;
+            return Ok(self.spec.word_at(self.word_pos - 1) as u32);
+        }
         let b = self.take(4)?;
         Ok(u32::from_le_bytes([b[0], b[1], b[2], b[3]]))
     }
     fn try_next_u64(&mut self) -> Result<u64, SrcErr> {
+        if self.spec.words_differ {
+            self.word_pos += 1;
+            return Ok(self.spec.word_at(self.word_pos - 1));
+        }
         let b = self.take(8)?;
         Ok(u64::from_le_bytes([b[0], b[1], b[2], b[3], b[4], b[5], b[6], b[7]]))
     }
